@@ -21,7 +21,7 @@ def mutate(cls, meth, old, new, module=mod):
     src = textwrap.dedent(inspect.getsource(fn))
     assert src.count(old) == 1, (meth, old, src.count(old))
     ns = {}
-    exec(compile(src.replace(old, new), f"<mutant {meth}>", "exec"), module.__dict__, ns)  # noqa: S102
+    exec(compile("from __future__ import annotations\n" + src.replace(old, new), f"<mutant {meth}>", "exec"), module.__dict__, ns)  # noqa: S102
     orig = cls.__dict__[meth]
     setattr(cls, meth, ns[meth])
     return lambda: setattr(cls, meth, orig)
